@@ -53,13 +53,21 @@ def captions(path):
     for pi, label, x0, segs, _open in blocks:
         main = [s for s in segs if s[1] < x0 + 45]
         side = [s for s in segs if s[1] >= x0 + 45]
-        text = ' '.join(t for _, _, t in main)
-        text = re.sub(r'\s+%s\.$' % re.escape(label), '', text)
-        m = re.match(r'^([a-f])\.\s+(.*)$', text)
-        lab = label
-        if m:
-            lab, text = label + m.group(1), m.group(2)
-        caps.setdefault(lab, text)
+        # sub-items "a." "b." ... open their own caption (7a, 7b, ...)
+        parts, cur = [], [label, []]
+        for k, (y, x, t) in enumerate(main):
+            m = re.match(r'^([a-f])\.\s+(\S.*)$', t)
+            if m and (k == 0 or x >= x0 + 5):
+                if cur[1]:
+                    parts.append(cur)
+                cur = [label + m.group(1), [m.group(2)]]
+            else:
+                cur[1].append(t)
+        parts.append(cur)
+        for lab, ts in parts:
+            text = ' '.join(ts)
+            text = re.sub(r'\s+%s\.$' % re.escape(lab), '', text)
+            caps.setdefault(lab, text)
         cols = []
         for y, x, t in side:
             for c in cols:
@@ -76,7 +84,7 @@ def captions(path):
     return caps
 
 
-INFO = re.compile(r'^(\(.*\)|This is .*|If less than zero, see instructions|See instructions.*|Otherwise, go to Line \d+)$', re.I)
+INFO = re.compile(r'^(\(.*\)|This is .*|If less than zero, see instructions|See instructions.*|Otherwise, go to Line \d+|Enter the total here and on Form D-400, Line \d+[a-z]?)$', re.I)
 
 
 def _line_list(s):
@@ -102,6 +110,10 @@ def _line_list(s):
 def parse(caption, line_names):
     """instruction term of a caption, or None"""
     c = caption.strip()
+    # a title followed by the instruction in parentheses: "... Before Limitation (Add Lines 1 and 2)"
+    m = re.match(r'^[^()]*\(((?:Add Lines|Subtract Line|Multiply Line|Compare Line)[^()]*(?:\([\d.]+\)[^()]*)?)\)$', c)
+    if m:
+        c = m.group(1)
     # parenthesised remarks are informational unless they carry the instruction themselves
     c = re.sub(r'\s*\((?:From Form [^)]*|Enter the total here and on[^)]*|See instructions[^)]*|If less than zero, see instructions\.?|Amended Returns Only[^)]*)\)', '', c)
     c = re.sub(r'\s*Pay in U\.S\. Currency from a Domestic Bank.*$', '', c)
@@ -125,6 +137,9 @@ def parse(caption, line_names):
     m = re.match(r'^Subtract Line %s from Line %s$' % (LINE, LINE), s)
     if m:
         term = ('sub', m.group(2), m.group(1))
+    m = re.match(r'^Compare Line %s to Line %s; enter whichever is less$' % (LINE, LINE), s)
+    if m:
+        term = ('min', m.group(1), m.group(2))
     m = re.match(r'^Multiply Line ' + LINE + r' by ([\d.]+) ?% \((0?\.\d+)\)$', s)
     if m and Decimal(m.group(2)) / 100 == Decimal(m.group(3)):
         term = ('scale', m.group(1), m.group(3))
@@ -132,7 +147,8 @@ def parse(caption, line_names):
         return None
     while rest:
         r = rest[0]
-        if re.match(r'^If zero or less, enter a zero$', r):
+        if re.match(r'^If zero or less, enter a zero$', r) or \
+                (term[0] == 'sub' and re.match(r'^If Line %s is more than Line %s ?, enter a zero$' % (re.escape(term[2]), re.escape(term[1])), r)):
             if term[0] == 'scale':
                 term = ('scalefloor', term[1], term[2])
             elif term[0] == 'sub':
@@ -172,6 +188,9 @@ def froms(caption):
         f = _form_of(m.group(1))
         if f and re.match(r'^D-400( Schedule [SA])?$', m.group(1).strip()):
             out.append((f, m.group(2)))
+    m = re.match(r'^Enter the amount from Form (D-400(?: Schedule [SA])?), Line %s\.?$' % LINE, caption.strip())
+    if m and _form_of(m.group(1)):
+        out.append((_form_of(m.group(1)), m.group(2)))
     return out
 
 
